@@ -1,6 +1,6 @@
 /-
   oracle_c11 — line-protocol driver for the C11 models (Model/Conc.lean).
-    facts                                  -> ok <allDisciplined:0|1> <protoFacts as expected:0|1> <n functions>
+    facts                                  -> ok <allDisciplined:0|1> <protoFacts as expected:0|1> <n functions> <ownership facts:0|1> <failing ownership facts|->
     mon <events>                           -> ok <n> | bad <index> <what>      events: one letter each
                                               b save:begin  f save:finito  m mutation begins  e mutation ends
                                               c file created  d file goroutine done  o other
@@ -13,6 +13,7 @@
                                               labels: M (main) or worker index digits separated by ','
 -/
 import GocoinV.Model.Conc
+import GocoinV.Model.ConcOwn
 import GocoinV.Base.Proto
 open GocoinV GocoinV.Conc
 
@@ -59,7 +60,8 @@ def step (_ : Unit) (toks : List String) : Unit × String :=
   let bad := ((), "bad-op")
   match toks with
   | ["facts"] =>
-    ((), s!"ok {Proto.boolStr allDisciplined} {Proto.boolStr (protoFacts == protoFactsOK)} {policy.length}")
+    let ob := Own.ownFactsBad
+    ((), s!"ok {Proto.boolStr allDisciplined} {Proto.boolStr (protoFacts == protoFactsOK)} {policy.length} {Proto.boolStr ob.isEmpty} {if ob.isEmpty then "-" else ",".intercalate ob}")
   | ["mon", evs] =>
     match (dash evs).toList.mapM monEv with
     | some es =>
